@@ -46,6 +46,10 @@ type Profile struct {
 	Compaction                                               bool // compaction workers are part of the scenario
 	Clock                                                    bool // clock jumps are part of the schedule
 	WBatch, WSub, WSeq, WMerge                               int  // weights of the extra op kinds
+	Managed                                                  bool // managed mode: caller-chosen timestamps
+	WDiscardTs, WMBatch                                      int
+	InMemory                                                 bool
+	WGC, WDrop                                               int
 	NoIter                                                   bool
 }
 
@@ -232,7 +236,11 @@ func genClient(t *rapid.T, p *Profile, cfg *Config, nkeys, maxOps int) []Op {
 		}
 		if slots[s] == 0 {
 			rw := rapid.IntRange(0, 3).Draw(t, "rw") != 0
-			ops = append(ops, Op{K: "begin", S: s, RW: rw})
+			bop := Op{K: "begin", S: s, RW: rw}
+			if p.Managed {
+				bop.Ts = uint64(rapid.IntRange(1, 95).Draw(t, "read_ts"))
+			}
+			ops = append(ops, bop)
 			if rw {
 				slots[s] = 2
 			} else {
@@ -244,6 +252,38 @@ func genClient(t *rapid.T, p *Profile, cfg *Config, nkeys, maxOps int) []Op {
 		type choice struct {
 			w int
 			k string
+		}
+		if tot := p.WDiscardTs + p.WMBatch + p.WGC + p.WDrop; tot > 0 && rapid.IntRange(0, 99).Draw(t, "extra2") < 20 {
+			x := rapid.IntRange(0, tot-1).Draw(t, "extra2_kind")
+			switch {
+			case x < p.WDiscardTs:
+				ops = append(ops, Op{K: "discard_ts", Ts: uint64(rapid.IntRange(1, 30).Draw(t, "discard_ts"))})
+			case x < p.WDiscardTs+p.WMBatch:
+				nb := rapid.IntRange(1, 8).Draw(t, "mbatch_n")
+				var sub []Op
+				for i := 0; i < nb; i++ {
+					so := Op{K: "set", Key: rapid.IntRange(0, nkeys-1).Draw(t, "mbkey"), Sz: genValSize(t, p, cfg), Ts: uint64(rapid.IntRange(31, 90).Draw(t, "mbver"))}
+					if rapid.IntRange(0, 4).Draw(t, "mbdel") == 0 {
+						so.K = "del"
+					}
+					sub = append(sub, so)
+				}
+				ops = append(ops, Op{K: "mbatch", Sub: sub, N: rapid.IntRange(0, 1).Draw(t, "mbatch_kind"), Ts: uint64(rapid.IntRange(31, 90).Draw(t, "mbatch_ts"))})
+			case x < p.WDiscardTs+p.WMBatch+p.WGC:
+				ops = append(ops, Op{K: "gc", F: rapid.SampledFrom([]float64{0.01, 0.1, 0.5, 0.9}).Draw(t, "gc_ratio")})
+			default:
+				if rapid.IntRange(0, 3).Draw(t, "drop_all") == 0 {
+					ops = append(ops, Op{K: "drop_all"})
+				} else {
+					np := rapid.IntRange(1, 2).Draw(t, "drop_np")
+					var sub []Op
+					for i := 0; i < np; i++ {
+						sub = append(sub, Op{Key: rapid.IntRange(0, nkeys-1).Draw(t, "drop_key"), N: rapid.IntRange(0, 2).Draw(t, "drop_len")})
+					}
+					ops = append(ops, Op{K: "drop_prefix", Sub: sub})
+				}
+			}
+			continue
 		}
 		// extra op kinds do not need a transaction slot
 		if tot := p.WBatch + p.WSub + p.WSeq + p.WMerge; tot > 0 && rapid.IntRange(0, 99).Draw(t, "extra") < 35 {
@@ -344,6 +384,9 @@ func genClient(t *rapid.T, p *Profile, cfg *Config, nkeys, maxOps int) []Op {
 			op.It = genIter(t, p, nkeys, slots[s] == 2)
 		case "commit", "commitWith", "discard":
 			slots[s] = 0
+			if p.Managed {
+				op.Ts = uint64(rapid.IntRange(31, 90).Draw(t, "commit_ts"))
+			}
 		}
 		ops = append(ops, op)
 	}
@@ -368,6 +411,30 @@ func GenCase(t *rapid.T, p *Profile) *Case {
 		c.Clients = append(c.Clients, genClient(t, p, &c.Cfg, len(c.Keys), p.MaxOps))
 	}
 	c.Sched = genSched(t, p.MaxDec)
+	if p.Managed {
+		c.Cfg.Managed = true
+		c.Cfg.Prefill = 0
+		// NewManagedWriteBatch after SetDiscardTs(>0) with conflict detection on
+		// aborts the process (known finding, probed separately): keep exploring
+		// everything else by never generating that combination.
+		hasDiscard, hasMB := false, false
+		for _, cl := range c.Clients {
+			for _, op := range cl {
+				if op.K == "discard_ts" {
+					hasDiscard = true
+				}
+				if op.K == "mbatch" && op.N == 0 {
+					hasMB = true
+				}
+			}
+		}
+		if hasDiscard && hasMB {
+			c.Cfg.DetectConflicts = false
+		}
+	}
+	if p.InMemory {
+		c.Cfg.InMemory = true
+	}
 	if p.Compaction || p.Clock {
 		c.Sched.ClockPct = rapid.SampledFrom([]int{2, 5, 15, 30}).Draw(t, "clock_pct")
 		c.Sched.ClockMs = rapid.SampledFrom([][]int{
